@@ -195,6 +195,25 @@ func sampleAwkward(sum *Summary, c json.RawMessage, sc *sCase, rng *rand.Rand) {
 // [min, max]; (2) weighted data whose zero-weight slots hold huge garbage: "zero-weight values are ignored" whatever they are.
 func sampleExtremes(sum *Summary, c json.RawMessage, sc *sCase) {
 	n := len(sc.Init.Xs)
+	if n == 0 {
+		// no values at all (nil, and empty but non-nil with every setting of the flags), and a single infinite value:
+		// IQR is the difference of the two quantiles, NaN - NaN and Inf - Inf included
+		for _, s := range []stats.Sample{{}, {Xs: []float64{}}, {Xs: make([]float64, 0, 4), Sorted: true}, {Xs: []float64{}, Weights: []float64{}},
+			{Xs: []float64{math.Inf(1)}}, {Xs: []float64{math.Inf(-1)}, Sorted: true}} {
+			for _, q := range []float64{-1, 0, 0.25, 0.5, 1, 2} {
+				sum.Checks++
+				g := s.Quantile(q)
+				if len(s.Xs) == 0 && !math.IsNaN(g) {
+					sum.viol("Quantile-empty", c, "empty sample %+v: Quantile(%v)=%v want NaN", s, q, g)
+				} else if len(s.Xs) == 1 && g != s.Xs[0] {
+					sum.viol("Quantile-empty", c, "one-value sample %+v: Quantile(%v)=%v", s, q, g)
+				}
+			}
+			if w, g := s.Quantile(0.75)-s.Quantile(0.25), s.IQR(); !(g == w || (math.IsNaN(g) && math.IsNaN(w))) {
+				sum.viol("IQR", c, "sample %+v: IQR=%v want Quantile(.75)-Quantile(.25)=%v", s, g, w)
+			}
+		}
+	}
 	if n == 0 || len(sc.Objs) == 0 {
 		return
 	}
@@ -547,7 +566,7 @@ func sampleRun(sum *Summary, c json.RawMessage, sc *sCase, s, o float64, rng *ra
 		}
 		if len(x.Xs) > 0 {
 			sum.Checks++
-			if iqr := x.IQR(); math.Abs(iqr-(q75-q25)) > 2*tolQ {
+			if iqr, w := x.IQR(), q75-q25; !(math.Abs(iqr-w) <= 2*tolQ || (math.IsNaN(iqr) && math.IsNaN(w))) { // (NaN-safe: an empty sample has IQR NaN - NaN = NaN, not 0)
 				sum.viol("IQR", c, "object %d: IQR=%v want Q(.75)-Q(.25)=%v", i+1, iqr, q75-q25)
 			}
 			unchanged("IQR")
